@@ -268,6 +268,10 @@ class Bot:
     # are fine.
     def look_to_has_been_called(self, call_time: float) -> None:
         """Callback called when a user calls 'Look To'."""
+        # 'Look To' is activity: the inactivity time-out of `main_loop` must not fire while this
+        # callback (which sleeps inside `initialise_line` before it sets `_is_ringing`) is running
+        self._last_activity_time = time.time()
+
         self._rhythm.return_to_mainloop()
 
         # Pylint doesn't seem to understand "Row" is a list here
